@@ -148,6 +148,11 @@ fn gen_case(rng: &mut Rng, out: &mut Out, tier: &str) {
             4..=6 => s.push(format!("ev fill {i} B {}", 1 + rng.below(3))),
             _ => s.push(format!("ev fill {i} S {}", 1 + rng.below(3))),
         }
+        // a third of the positions were partially reduced before the command (open quantity below the
+        // peak quantity ever held)
+        if s.last().map(|l| l.starts_with("ev fill")).unwrap_or(false) && rng.chance(35) {
+            s.push(format!("ev reduce {i}"));
+        }
         if rng.chance(75) {
             let at = rng.below(s.len() as u64 + 1) as usize;
             s.insert(at, format!("ev price {i} {}", 100 + rng.below(4)));
@@ -187,7 +192,9 @@ fn gen_case(rng: &mut Rng, out: &mut Out, tier: &str) {
                 3 => format!("ev snap {i} {cid} 10 100 O {} {} {}", 1 + rng.below(3), rng.below(5), rng.pick(&[0, 5])),
                 4 => format!("ev price {i} {}", 100 + rng.below(4)),
                 5 => {
-                    if has_pos[i] {
+                    if has_pos[i] && rng.chance(50) {
+                        format!("ev reduce {i}")
+                    } else if has_pos[i] {
                         has_pos[i] = false;
                         format!("ev flat {i}")
                     } else {
